@@ -302,10 +302,11 @@ def run_families(ctx, n):
                 ctx.count(case, True, kind="family")
                 res = obj.to_dict(**call_kw)
                 expect_shared = set()
-                for fname, val in (("tags", obj.tags), ("attrs", obj.attrs)) + ((("scores", obj.scores),) if cls is Child else ()):
+                # (conv: List[Optional[int]] — Optional of a conversion-free type is conversion-free)
+                for fname, val in (("tags", obj.tags), ("attrs", obj.attrs), ("conv", obj.conv)) + ((("scores", obj.scores),) if cls is Child else ()):
                     if type(val).__name__ in effN:
                         expect_shared.add(fname)
-                # conv needs conversion (Optional elements): never shared; nested class uses ITS OWN config
+                # the nested class uses ITS OWN config
                 nested_expect = {"xs"} if "list" in nested_N else set()
                 got_shared = {f for f in ("tags", "attrs", "conv", "scores") if f in res and hasattr(obj, f) and res[f] is getattr(obj, f)}
                 got_nested = {f for f in ("xs", "m") if res["inner"][f] is getattr(obj.inner, f)}
